@@ -62,7 +62,7 @@ def constant_payload_obligations(chk, e, v, in_nat, in_int, tag=""):
             ty = it.call(NT, [it.getattr(it.getattr(NT, "Kind"), kind)], {})
             it.ctx.assume(in_nat if kind == "Nat" else in_int)  # established by the checker (above)
             r = it.call(it.lookup_global(m, "python_value_to_hugr"), [SInt(v), ty, None], {})
-            if kind == "Nat":
+            if isinstance(r, SObj) and r.cls.name == "UnsignedIntVal":
                 return r, it.call_method(r, "to_value", [])
             return r, None
         paths = e.explore(t_h)
@@ -71,13 +71,15 @@ def constant_payload_obligations(chk, e, v, in_nat, in_int, tag=""):
             if p.kind != "return":
                 return z3.BoolVal(False)
             r, tv = p.value
-            if kind == "Int":
-                if not (isinstance(r, SObj) and r.cls.name == "IntVal"):
-                    return z3.BoolVal(False)
+            if isinstance(r, SObj) and r.cls.name == "IntVal":
+                # hugr's IntVal(a, width): the constant with the two's-complement bit pattern of a; the
+                # constant written is v, so a must be v itself or its signed / unsigned alias
                 a = r.fields["args"]
                 w = r.fields.get("width", a[1] if len(a) > 1 else None)
-                return z3.And(zint(a[0]) == v, z3.BoolVal(w == 6))
-            if not (isinstance(r, SObj) and r.cls.name == "UnsignedIntVal"):
+                a0 = zint(a[0])
+                same_bits = z3.Or(a0 == v, a0 == v - (1 << 64), a0 == v + (1 << 64))
+                return z3.And(same_bits if kind == "Nat" else a0 == v, a0 >= IMIN, a0 <= NMAX, z3.BoolVal(w == 6))
+            if kind == "Int" or not (isinstance(r, SObj) and r.cls.name == "UnsignedIntVal"):
                 return z3.BoolVal(False)
             payload = tv.fields.get("val")
             return z3.And(zint(r.fields["v"]) == v, z3.BoolVal(r.fields["width"] == 6),
